@@ -6,6 +6,9 @@ import json
 import os
 
 import vlib
+import sys
+sys.path.insert(0, os.path.dirname(os.path.dirname(os.path.abspath(__file__))))
+import translate_c07  # noqa: E402
 
 LEVEL = "proof"
 RULE = ("op histories (candidate list, cap) against prior_combinations_sample with the module-global counter reset "
@@ -14,7 +17,7 @@ RULE = ("op histories (candidate list, cap) against prior_combinations_sample wi
 THEOREMS = ["C07_step_valid", "C07_checker_sound", "C07_subset", "C07_exact", "C07_least_first", "C07_fair",
             "C07_fair_interleaved", "C07_shared_counter_refuted",
             "C07_counts_are_selections", "C07_model_fair", "C07_checked_history_fair",
-            "C07_selection_history_fair", "C07_report_sound"]
+            "C07_selection_history_fair", "C07_report_sound", "C07_source_constants", "C07_source_constants_matter"]
 NAMES = ["a", "b", "f1", "f2", "label", "x AND y", "u", "v9", "é", "", "0", "1", "f AND_REL g"]
 
 
@@ -303,6 +306,46 @@ def encode(case, res):
     return "[" + "; ".join(ops) + "]", "[" + "; ".join(obs) + "]", ids
 
 
+def source_constants(run, proofs_ok):
+    """The constants of prior_combinations_sample read from the source; a proof obligation `pstep <them> = step` is generated
+    and checked by coqc.  Unrecognised source shape: no obligation (the correspondence alone holds the function), said so in
+    the evidence.  Recognised shape with other constants: the obligation fails; a history the checker rejects is computed in the
+    model and reported unless the correspondence below finds an implementation history itself."""
+    try:
+        k = translate_c07.extract(vlib.REPO)
+    except (translate_c07.TranslateError, OSError, SyntaxError) as e:
+        run.notes.append("source shape of prior_combinations_sample not recognised by tools/translate_c07.py (%s): its constants are "
+                         "held by the correspondence only in this run" % e)
+        run.cov["source_constants"] = None
+        return
+    run.cov["source_constants"] = k
+    if not proofs_ok:
+        return
+    hdr = ("From Coq Require Import List ZArith.\nFrom Outrank Require Import Pipeline.Sampler Props.C07.\nImport ListNotations.\n"
+           "Open Scope Z_scope.\n")
+    goal = ("Goal forall s L cap, pstep %s (%d) %d %d s L cap = step s L cap.\nProof. exact C07_source_constants. Qed.\n"
+            % ("true" if k["rev"] else "false", k["off"], k["inc"], k["init"]))
+    name = ("translator:constants of prior_combinations_sample read from core_ranking.py (sort ascending, slice [:cap+0], += 1, "
+            "new = 0): generated obligation `pstep rev off inc init = step` checked by coqc")
+    try:
+        vlib.coq_eval("C07src", hdr + goal, ["true"])
+        run.oblige(name, True)
+    except vlib.Broken as e:
+        run.oblige(name, False, "source constants %r\n%s" % (k, str(e)[-600:]))
+        # a history the checker rejects, computed in the model with the source's constants
+        wit = None
+        try:
+            ops = "(map (fun c => ([0; 1; 2]%nat, c)) [2; 2; 2; 1; 3])"
+            v = vlib.coq_eval("C07srcw", hdr, ["steps_ok [] %s (prun %s (%d) %d %d [] %s)"
+                                               % (ops, "true" if k["rev"] else "false", k["off"], k["inc"], k["init"], ops)])[0]
+            if not all(v):
+                wit = {"ops": [[[["k0", "t"], ["k1", "t"], ["k2", "t"]], c] for c in [2, 2, 2, 1, 3][:list(v).index(False) + 1]],
+                       "stable": True}
+        except vlib.Broken:
+            pass
+        run.pending_source = (k, wit)
+
+
 def check(run, replay):
     model_ok, log = vlib.build(["Pipeline/Sampler.vo"])
     run.oblige("build:model Pipeline/Sampler.vo", model_ok, "" if model_ok else log[-1500:])
@@ -311,6 +354,8 @@ def check(run, replay):
     proofs_ok = vlib.standard_proof_phase(run, ["Props/C07.vo"], "Outrank.Props.C07", THEOREMS)
     if proofs_ok and run.tier == "thorough" and replay is None:
         vlib.coqchk(run, "Outrank.Props.C07")
+
+    source_constants(run, proofs_ok)
 
     if replay is not None:
         cases = [replay["case"]]
@@ -327,6 +372,8 @@ def check(run, replay):
         pipe_cases = []
     else:
         pipe_cases = [gen_pipe_case(run.rng) for _ in range(60 if run.tier == "quick" else 400)]
+    if replay is None and getattr(run, "pending_source", None) and run.pending_source[1]:
+        cases.insert(0, run.pending_source[1])
     rk = replay["case"].get("kind") if replay is not None else None
     if replay is None:
         feat_cases = [gen_feat_case(run.rng) for _ in range(40 if run.tier == "quick" else 300)]
@@ -518,6 +565,11 @@ def check(run, replay):
         for j, o in enumerate(run.obligations):
             if o[0].startswith("correspondence:valid_step"):
                 run.obligations[j] = (o[0], False, "%d histories rejected" % len(run.violations))
+    if getattr(run, "pending_source", None) and not any(v["found_input"] for v in run.violations):
+        k, wit = run.pending_source
+        run.violation("broken-obligation", "translator:constants of prior_combinations_sample (C07_source_constants)", found_input=False,
+                      extra="source constants %r differ from (ascending, 0, 1, 0); model history rejected by the checker with them: %r; "
+                      "no implementation history of this run was rejected" % (k, wit))
     run.cov["histories_checked_in_coq"] = ncmp
     run.cov["tie_breaking_differs_from_stable_sort_transcription"] = ndiff_model
     run.cov["input_distribution"] = hist
